@@ -7,5 +7,9 @@ CLAIMED = {
    text="Proof level for progress and bounded work: every wire reader under contract returns a cursor strictly beyond the one it was given and inside the buffer (or raises), and every decoder loop under contract carries a decreases clause len(data)-cur proved to drop on each completed iteration, so iterations are bounded by the input length whatever count fields claim.",
    note="CRC-32 burst-detection is a mathematical fact about CRC-32 that is assumed, not proved; gzip/snappy internals are external. Trusted: pyvc encoding, struct as uninterpreted bijection.",
    ref='DESIGN.md section 8 C12, section 12'),
+ 'C04': dict(
+   text="Proof level for the encoders listed in evidence: the bytes each request encoder returns are proved equal, for all argument values, to an independent grammar-derived encoding (header key/version/correlation id/client id, null vs empty, per-partition order of the grouped payloads, message CRC over the bytes after it, attributes). encode_produce_request is a bounded stand-in (labelled, not counted as discharged); API-version selection (client.get_api_version) is covered by its own contract.",
+   note="Trusted: pyvc encoding; struct/str codecs as uninterpreted functions; zlib.crc32 uninterpreted; group_by_topic_and_partition's contract (result == grouped(payloads)) is assumed in the encoders' proofs and checked only by the bounded stand-in.",
+   ref='DESIGN.md section 8 C04, section 12'),
 }
 NOT_APPLICABLE = {}
